@@ -153,7 +153,15 @@ def lsp_session(wd, tcp, default_paths, rng, label, variant=None):
             f.write(ta)
         s.open(uri_for(a), ta, "markdown")
         s.open(uri_for(b), "// teh comment with a wrold\nfn main() {}\n", "rust")
-        s.open("untitled:Untitled-1", "An untitled buffer with a qzxvb.", "plaintext")
+        # the same host-naming text where no Markdown parser cuts it at the brackets: a plain-text buffer and a plain-text file
+        hosts = ("It runs at http://[server]:8080/api, http://[::1]:80/, https://[your-domain.example.com]/callback, http://[fe80::1%eth0]:8080/, "
+                 "https://user:pw@[intranet.corp.example]:8443/x, ssh://git@host.example:22/repo.git, ftp://files.example.net:21, host.example:443 and \\\\fileserver\\share.")
+        s.open("untitled:Untitled-1", "An untitled buffer with a qzxvb. " + hosts, "plaintext")
+        c_txt = os.path.join(files, "c.txt")
+        with open(c_txt, "w") as f:
+            f.write(hosts + "\n")
+        s.open(uri_for(c_txt), hosts + "\n", "plaintext")
+        s.save(uri_for(c_txt))
         s.change(uri_for(a), ta + "\nMore text with a gardden.")
         with open(a, "w") as f:
             f.write(ta + "\nMore text with a gardden.")
